@@ -279,7 +279,7 @@ func (s *Sim) Pending() []*Job {
 	defer s.mu.Unlock()
 	var r []*Job
 	for _, j := range s.Jobs {
-		if !j.Done {
+		if !j.Done && j.Failed == "" {
 			r = append(r, j)
 		}
 	}
